@@ -1950,6 +1950,10 @@ class Cluster(object):
         if self.profile_manager.distance(host) == HostDistance.IGNORED:
             return
 
+        if self.metadata.get_host(host.endpoint) is not host:
+            # the host has been removed meanwhile: never reconnect to it
+            return
+
         schedule = self.reconnection_policy.new_schedule()
 
         # in order to not hold references to this Cluster open and prevent
